@@ -176,7 +176,7 @@ inductive Ev
   | vadd | vsub                               -- `GraphVertexClosure` created / done
   | procStart (v : Nat) (ins : List (Option Val))
   | procEnd (v : Nat)
-  | seal (v k : Nat) (x : Option Val)         -- the `k`-th emit of `v` is sealed with value `x`
+  | sealBy (v k : Nat) (x : Option Val)       -- the `k`-th emit of `v` is sealed with value `x`
   | dsub                                      -- `depend_data_sub` after the seal of a bound data
   | finish (code : Int)                       -- successful `mark_finished`
   | reset
@@ -275,7 +275,7 @@ def stepEvent (p : Params) (s : State) : Ev → Option State
     if s.started v = 1 && s.ended v = 0 && s.procs > 0 then
       some { s with ended := upd s.ended v 1, procs := s.procs - 1 }
     else none
-  | .seal v k x =>
+  | .sealBy v k x =>
     match (p.g.vert v).emits[k]? with
     | none => none
     | some d =>
